@@ -1676,6 +1676,105 @@ def mon_c16_flush(case_line, acts):
     return out
 
 
+def mon_hist(case_line, acts):
+    """the conclusion of C16_history_completes, read off the implementation: on a healthy connection without keep-alive
+    to the answering broker every acknowledged operation that fits returns its handle having put exactly its packet on
+    the wire; the poll() that follows (the second one for QoS 2, whose first writes exactly the PUBREL) writes nothing
+    more and leaves the handle complete; afterwards nothing is queued and the send window is what it was."""
+    out = []
+    case = parse_case(case_line)
+    if case is None or len(case['actions']) != len(acts):
+        return out
+    # only the histories the theorem speaks about (py_hist): answering broker, one connect, then requests and polls on a
+    # transport without a script and without keep-alive
+    ca = case['actions']
+    if len(ca) < 4 or ca[0] != (12, 2) or ca[1][0] != 0 or ca[1][1] or ca[2] != (12, 1) or case['cfg']['ka'] != 0 \
+            or any(c not in (1, 2, 3, 6) for c, _ in ca[3:]) or not case_line.rstrip().endswith(' 0'):
+        return out
+    fl = Flow(acts)
+    tx = {}
+    for ev in fl.events:
+        if ev[0] == 'tx':
+            tx.setdefault(ev[3], []).append(ev[2])
+    quota0 = None
+    nh = 0
+    i = 0
+    while i < len(acts):
+        a = acts[i]
+        code, req = case['actions'][i]
+        st = a.state or {}
+        if code == 0:
+            if a.result not in ('ok connected', 'ok reconnected'):
+                return out                      # the theorem starts from an established connection
+            quota0 = st.get('quota')
+            i += 1
+            continue
+        if code not in (1, 2, 3) or quota0 is None:
+            i += 1
+            continue
+        res = a.result or ''
+        if res.startswith('err '):
+            # a request that does not fit the transmit buffer (or is refused for its content) is outside `request_ok`;
+            # it must not disturb the idle state
+            if st.get('ret') != '[]' or st.get('rel') != '[]' or st.get('ctl') != '[]' or st.get('live') != '1':
+                out.append(V('refused request at action #%d (%s) left the connection not idle' % (i, res)))
+                return out
+            i += 1
+            while i < len(acts) and case['actions'][i][0] == 6:
+                i += 1
+            continue
+        if not res.startswith('ok op '):
+            out.append(V('action #%d on an idle healthy connection returned %r instead of a handle' % (i, res)))
+            return out
+        f = res.split(' ')
+        kind, pid = int(f[2]), int(f[3])
+        mine = tx.get(i, [])
+        want_type = {1: 'PUBLISH', 2: 'SUBSCRIBE', 3: 'UNSUBSCRIBE'}[code]
+        if len(mine) != 1 or mine[0]['type'] != want_type or mine[0].get('pid') != pid:
+            out.append(V('action #%d returned handle (kind %d, identifier %d) but wrote %s'
+                         % (i, kind, pid, [(p['type'], p.get('pid')) for p in mine])))
+            return out
+        p = mine[0]
+        if code == 1 and (p['topic'] != req['topic'] or p['payload'] != req['payload'] or p['qos'] != req['qos'] or p['dup']):
+            out.append(V('the PUBLISH written by action #%d is not the request: %s' % (i, p['raw'].hex()[:80])))
+            return out
+        if code == 2 and [t[0] for t in p.get('topics', [])] != [t[0] for t in req['topics']]:
+            out.append(V('the SUBSCRIBE written by action #%d does not carry the requested filters' % i))
+            return out
+        polls = 2 if (code == 1 and req['qos'] == 2) else 1
+        for k in range(1, polls + 1):
+            if i + k >= len(acts) or case['actions'][i + k][0] != 6:
+                return out
+            b = acts[i + k]
+            if b.result != 'ok none':
+                out.append(V('poll() at action #%d after the request of action #%d returned %r' % (i + k, i, b.result)))
+                return out
+            wrote = tx.get(i + k, [])
+            if polls == 2 and k == 1:
+                if len(wrote) != 1 or wrote[0]['type'] != 'PUBREL' or wrote[0].get('pid') != pid:
+                    out.append(V('the first poll() after the QoS 2 publish of action #%d wrote %s, not exactly its PUBREL'
+                                 % (i, [(q['type'], q.get('pid')) for q in wrote])))
+                    return out
+            elif wrote:
+                out.append(V('poll() at action #%d wrote %s although nothing was owed' % (i + k, [q['type'] for q in wrote])))
+                return out
+        end = acts[i + polls].state or {}
+        hs = list_field(end.get('h', '[]'))
+        if nh < len(hs) and hs[nh] != 'C':
+            out.append(V('after its poll() the handle of action #%d (identifier %d) reports %s, not complete' % (i, pid, hs[nh])))
+            return out
+        nh += 1
+        if end.get('ret') != '[]' or end.get('rel') != '[]' or end.get('ctl') != '[]' or end.get('live') != '1':
+            out.append(V('after the exchange of action #%d the session is not idle: ret=%s rel=%s ctl=%s live=%s'
+                         % (i, end.get('ret'), end.get('rel'), end.get('ctl'), end.get('live'))))
+            return out
+        if end.get('quota') != quota0:
+            out.append(V('after the exchange of action #%d the send window is %s, it was %s' % (i, end.get('quota'), quota0)))
+            return out
+        i += polls + 1
+    return out
+
+
 # ---------------------------------------------------------------- C16: progress and quiescence under a benign continuation
 def mon_c16(case_line, acts):
     """after the Heal action (transport healthy from here on, broker answering everything) the continuation
